@@ -100,6 +100,8 @@ class Ctx:
             self.build()
         cmd = [str(self.bin)] + [str(a) for a in args]
         env = dict(os.environ, DSV_WORK=str(self.work), DSV_SEED=str(self.seed), RUST_BACKTRACE="0")
+        if not self.quick:
+            env["DSV_THOROUGH"] = "1"
         pend = self.work / "pending.json"
         if pend.exists():
             pend.unlink()
